@@ -4,8 +4,11 @@ import (
 	"bufio"
 	"bytes"
 	"encoding/json"
+	"errors"
 	"io"
+	"math/big"
 	"os"
+	"strconv"
 	"strings"
 
 	"github.com/itchyny/go-yaml"
@@ -291,7 +294,38 @@ func (i *yamlInputIter) Next() (any, bool) {
 		i.err = &yamlParseError{i.fname, i.ir.getContents(nil, nil), err}
 		return i.err, true
 	}
-	return v, true
+	return normalizeYAMLNumbers(v), true
+}
+
+// normalizeYAMLNumbers rewrites the numbers whose YAML spelling is not a JSON
+// number literal (+1, 1., +.5, 1.e2), as a json.Number is printed verbatim.
+func normalizeYAMLNumbers(v any) any {
+	switch v := v.(type) {
+	case json.Number:
+		if json.Valid([]byte(v)) {
+			return v
+		}
+		if bi, ok := new(big.Int).SetString(string(v), 10); ok {
+			return json.Number(bi.String())
+		}
+		if f, err := strconv.ParseFloat(string(v), 64); err == nil ||
+			errors.Is(err, strconv.ErrRange) {
+			return f
+		}
+		return v
+	case []any:
+		for i, x := range v {
+			v[i] = normalizeYAMLNumbers(x)
+		}
+		return v
+	case map[string]any:
+		for k, x := range v {
+			v[k] = normalizeYAMLNumbers(x)
+		}
+		return v
+	default:
+		return v
+	}
 }
 
 func (i *yamlInputIter) Close() error {
